@@ -217,7 +217,11 @@ def run(ctx):
                 path = os.path.join(tmp, "t_%d.tif" % n)
                 with warnings.catch_warnings():
                     warnings.simplefilter("ignore")
-                    hp.save_image(path, img, scaling=scaling, depth=depth)
+                    if n % 3 == 0:      # the same writer behind the plural form, a list of one picture
+                        from holopy.core.io import save_images
+                        save_images([path], [img], scaling=scaling, depth=depth)
+                    else:
+                        hp.save_image(path, img, scaling=scaling, depth=depth)
                     back = hp.load(path)
             except Exception as ex:
                 ctx.violation("tiff/exception/%s" % ("constant_image" if arr.max() == arr.min() else "depth%d" % depth),
